@@ -84,9 +84,27 @@ var suspensions int
 
 // yield-free variant: the same program text, but the yield functions cannot block, so every
 // function is compiled in its direct (non-resumable) form.
-func yield(id int) {}
+func yield(id int) {
+	if id%4 == 3 {
+		ylib.Pass(id, 0)
+	}
+}
 
-func y(id int, v int) int { return v }
+//go:linkname lpass ROOT/ylib.hidden
+func lpass(id int, v int) int
+
+func y(id int, v int) int {
+	switch id % 4 {
+	case 1:
+		return ylib.Pass(id, v)
+	case 2:
+		return lpass(id, v)
+	case 3:
+		var d ylib.Passer = ylib.Doubler{N: v}
+		return d.Half(id)
+	}
+	return v
+}
 `)
 	} else if f.Yield {
 		sb.WriteString(`
@@ -100,14 +118,35 @@ func suspend() {
 	<-c
 }
 
-// yield suspends the goroutine at site id if the mask (argv[1]) selects it.
+// yield suspends the goroutine at site id if the mask (argv[1]) selects it. Every fourth
+// site suspends inside another package.
 func yield(id int) {
+	if id%4 == 3 {
+		ylib.Pass(id, 0)
+		return
+	}
 	if id < len(yieldMask) && yieldMask[id] == '1' {
 		suspend()
 	}
 }
 
+// lpass is ylib's unexported function, reached through go:linkname.
+//
+//go:linkname lpass ROOT/ylib.hidden
+func lpass(id int, v int) int
+
+// y is an expression site: in this package, in another package, behind a linkname, through
+// an interface method of another package's type.
 func y(id int, v int) int {
+	switch id % 4 {
+	case 1:
+		return ylib.Pass(id, v)
+	case 2:
+		return lpass(id, v)
+	case 3:
+		var d ylib.Passer = ylib.Doubler{N: v}
+		return d.Half(id)
+	}
 	yield(id)
 	return v
 }
@@ -252,11 +291,14 @@ func (e scenarioErr) Error() string { return "scenario error " + itoa(e.code) }
 func Bundle(scs []Scenario, f Features) map[string]string {
 	var sb strings.Builder
 	sb.WriteString("package main\n")
+	if f.Yield {
+		sb.WriteString("\nimport (\n\t\"ROOT/ylib\"\n\t_ \"unsafe\"\n)\n")
+	}
 	sb.WriteString(Common(f))
 	sb.WriteString(ErrDecl)
 	sb.WriteString("\nfunc main() {\n")
 	if f.Yield {
-		sb.WriteString("\tyieldMask = argv(1)\n")
+		sb.WriteString("\tyieldMask = argv(1)\n\tylib.Mask = yieldMask\n")
 	}
 	sb.WriteString("\tswitch argv(0) {\n")
 	for i, s := range scs {
@@ -264,10 +306,14 @@ func Bundle(scs []Scenario, f Features) map[string]string {
 	}
 	sb.WriteString("\t}\n")
 	if f.Yield {
-		sb.WriteString("\tout(\"#suspensions \" + itoa(suspensions))\n")
+		sb.WriteString("\tout(\"#suspensions \" + itoa(suspensions+ylib.Suspensions))\n")
 	}
 	sb.WriteString("}\n")
 	files := map[string]string{"main.go": sb.String()}
+	if f.Yield {
+		files["ylib/ylib.go"] = ylibSource(f.YieldStub)
+		files["stub.s"] = "" // the native compiler accepts the body-less lpass only next to an assembly file
+	}
 	for i, s := range scs {
 		files[fmt.Sprintf("s%03d.go", i)] = "package main\n\n" + s.Src
 	}
@@ -374,3 +420,53 @@ type Shape interface {
 	name() string
 }
 `
+
+// ylibSource is the second package of yield bundles: suspension sites behind a package
+// boundary, a go:linkname reference and an interface method of a foreign type.
+func ylibSource(stub bool) string {
+	susp := `
+func suspend() {
+	Suspensions++
+	c := make(chan struct{})
+	go func() { close(c) }()
+	<-c
+}
+
+func site(id int) {
+	if id < len(Mask) && Mask[id] == '1' {
+		suspend()
+	}
+}
+`
+	if stub {
+		susp = "\nfunc site(id int) {}\n"
+	}
+	return `package ylib
+
+var Mask string
+var Suspensions int
+` + susp + `
+// Pass returns v, possibly after a suspension.
+func Pass(id int, v int) int {
+	site(id)
+	return v
+}
+
+func hidden(id int, v int) int {
+	w := v
+	site(id)
+	return w
+}
+
+type Passer interface{ Half(id int) int }
+
+type Doubler struct{ N int }
+
+// Half keeps a local alive across the suspension point.
+func (d Doubler) Half(id int) int {
+	n := d.N + 1
+	site(id)
+	return n - 1
+}
+`
+}
